@@ -156,6 +156,33 @@ def _job(args):
         return dict(harness=hname, error="harness", detail="%s: %s\n%s" % (type(e).__name__, e, traceback.format_exc()[-3000:]))
 
 
+def _die_with_parent():
+    """Workers must not outlive the master (an orphan keeps the check's stdout pipe open, and the
+    pool respawns workers that are killed): ask the kernel for SIGKILL when the parent goes."""
+    try:
+        import ctypes
+        import signal
+        ctypes.CDLL("libc.so.6", use_errno=True).prctl(1, signal.SIGKILL)  # PR_SET_PDEATHSIG
+        if os.getppid() == 1:
+            os._exit(0)
+    except Exception:
+        pass
+
+
+def _kill_children():
+    me = str(os.getpid())
+    for d in os.listdir("/proc"):
+        if not d.isdigit():
+            continue
+        try:
+            st = open("/proc/%s/stat" % d).read()
+            ppid = st[st.rindex(")") + 2:].split()[1]
+            if ppid == me:
+                os.kill(int(d), 9)
+        except Exception:
+            pass
+
+
 def _shutdown(pool):
     """Pool.terminate() can dead-lock when tasks are still in flight (observed once: all workers
     gone, the master waiting on a futex). Kill the workers ourselves and give terminate() a few
@@ -166,9 +193,14 @@ def _shutdown(pool):
             p.kill()
         except Exception:
             pass
+    try:
+        pool._state = "TERMINATE"  # stops the pool's maintenance thread from respawning killed workers
+    except Exception:
+        pass
     t = threading.Thread(target=pool.terminate, daemon=True)
     t.start()
     t.join(5)
+    _kill_children()
 
 
 def src_hash(f):
@@ -240,7 +272,7 @@ def run_check(check_id, harnesses, tier, seed, known=None, budget_s=None, eviden
     random.Random(seed).shuffle(order)
     queue = [(h.name, [], slice_paths, slice_s) for h in order]
     inflight = 0
-    pool = ctxm.Pool(NPROC)
+    pool = ctxm.Pool(NPROC, initializer=_die_with_parent)
     if True:
         results = []
 
